@@ -1008,6 +1008,60 @@ func subOpEncRT(f Fields) string {
 	return "order-not-reproduced"
 }
 
+// subRunFontAgain builds a fresh font, calls Subset(first) on it, discards the result, calls
+// Subset(glyphs) on the SAME font value and renders the second result.
+func subRunFontAgain(sf *subFont, first, glyphs []glyph.ID) (status, order, R string) {
+	var b *subBuilt
+	var res *sfnt.Font
+	out := guard(func() string {
+		b = subBuild(sf)
+		_ = b.font.Subset(first)
+		res = b.font.Subset(glyphs)
+		return ""
+	})
+	if out != "" {
+		return "panic", "", ""
+	}
+	out = guard(func() string {
+		order, R = subRender(b, res)
+		return ""
+	})
+	if out != "" {
+		return "render-" + out, "", ""
+	}
+	return "", order, R
+}
+
+// subOpAgain: Subset must not change the font it is called on — the result of a second call on the
+// same font value (after Subset(first)) is what the model gives for the original font.
+func subOpAgain(f Fields) string {
+	want := f["order"]
+	sf, glyphs, ok := subParseCase(f)
+	if !ok {
+		return "panic"
+	}
+	var first []glyph.ID
+	if guard(func() string { first = subGlyphList(f["first"]); return "" }) != "" {
+		return "panic"
+	}
+	start := time.Now()
+	last := "order-not-reproduced"
+	for try := 0; try < subMaxTries; try++ {
+		status, order, R := subRunFontAgain(sf, first, glyphs)
+		if status != "" {
+			return status
+		}
+		if order == want {
+			return R
+		}
+		last = "order-not-reproduced:" + order
+		if try%16 == 15 && time.Since(start) > 2*time.Second {
+			break
+		}
+	}
+	return last
+}
+
 const subMaxTries = 5000
 
 // subMaxSearch bounds the search for the recorded order in wall-clock time (the harness gives up
@@ -1145,6 +1199,7 @@ func init() {
 	ops["subset.writable"] = subOpWritable
 	ops["subset.cffrun"] = subOpCffRun
 	ops["subset.encrt"] = subOpEncRT
+	ops["subset.again"] = subOpAgain
 	ops["subset.mustwrite"] = subOpWritable // D replay op: the property claims every subset can be written
 }
 
@@ -1920,6 +1975,43 @@ func areaSubset(c *Ctx) {
 			_ = outside
 			res := c.Case(kind, "subset.check", fontArgs+glyphsArg+" res="+R, nontrivial)
 			c.Stat("check_outcome", kind+":"+res)
+		}
+		// Subset twice on the same font value: the second result must be that of a fresh font
+		if status == "" && (len(sf.comps) > 0 || i%8 == 3) {
+			g2 := make([]glyph.ID, len(list))
+			for q, g := range list {
+				g2[q] = glyph.ID(g)
+			}
+			firsts := [][]int{list}
+			// a different first list: .notdef and all composites (in a random order), so that every
+			// composite has been through FixComponents under another numbering
+			other := []int{0}
+			for _, q := range subPerm(r, len(sf.comps)) {
+				if sf.comps[q].g != 0 {
+					other = append(other, sf.comps[q].g)
+				}
+			}
+			if len(other) > 1 {
+				firsts = append(firsts, other)
+			}
+			for _, fl := range firsts {
+				f1 := make([]glyph.ID, len(fl))
+				for q, g := range fl {
+					f1[q] = glyph.ID(g)
+				}
+				var st2, ord2 string
+				for try := 0; try < 8; try++ {
+					st2, ord2, _ = subRunFontAgain(sfLine, f1, g2)
+					if st2 != "" || hist[ord2] >= 1 {
+						break
+					}
+				}
+				if st2 != "" {
+					ord2 = "-"
+				}
+				ag := c.Case(Direct, "subset.again", fontArgs+" first="+subJoin(fl, ",")+glyphsArg+" order="+ord2, nontrivial)
+				c.Stat("again_outcome", subClass(ag))
+			}
 		}
 		if sf.kind == "cff" && !sf.encNil && status == "" {
 			er := c.Case(Direct, "subset.encrt", fontArgs+glyphsArg+" order="+order, nontrivial)
